@@ -133,10 +133,24 @@ def check_keys(ctx):
         if src(c.args[0]) == 'delay_param_dict' and isinstance(c.args[1], ast.Constant):
             dreq.add(c.args[1].value)
     handled = set()
-    for n in ast.walk(fr):
+    # the reader's own body and the module-level helpers it hands the key=value pairs to
+    smod = ctx.prog.mod('sbmlutil')
+    consts = {st.targets[0].id: st.value for st in smod.tree.body if isinstance(st, ast.Assign) and len(st.targets) == 1
+              and isinstance(st.targets[0], ast.Name) and isinstance(st.value, (ast.Tuple, ast.List, ast.Set))}
+    scopes = [fr]
+    for c_ in ast.walk(fr):
+        if isinstance(c_, ast.Call) and isinstance(c_.func, ast.Name) and any(src(a_) == 'key_vals' for a_ in c_.args):
+            scopes += [g_ for g_ in smod.tree.body if isinstance(g_, ast.FunctionDef) and g_.name == c_.func.id]
+    for n in [x for sc in scopes for x in ast.walk(sc)]:
         if not isinstance(n, ast.If):
             continue
         keys = util.eq_literals(n.test, 'k')
+        if not keys and isinstance(n.test, ast.Compare) and len(n.test.ops) == 1 and isinstance(n.test.ops[0], ast.In) and src(n.test.left) == 'k':
+            coll = n.test.comparators[0]
+            coll = consts.get(coll.id) if isinstance(coll, ast.Name) else coll
+            if isinstance(coll, (ast.Tuple, ast.List, ast.Set)) and all(isinstance(e_, ast.Constant) for e_ in coll.elts):
+                if any(isinstance(x, ast.Assign) and k(src(x.targets[0])) == 'delay_params[k]' for x in n.body):
+                    handled |= {e_.value for e_ in coll.elts}
         if not keys:
             continue
         body = [k(util.stmt_key(x)) for x in n.body]
@@ -325,6 +339,9 @@ def check_forwarding(ctx):
     for n_ in ast.walk(f):
         if isinstance(n_, (ast.Assign, ast.AugAssign)) and any(src(t_) == 'stochastic_model' for t_ in (n_.targets if isinstance(n_, ast.Assign) else [n_.target])):
             miss.append('the export mode is overridden: `%s`' % util.stmt_key(n_)[:70])
+    # ... and every export builds its document from the model as it is now: nothing is kept in the model between exports
+    for st_ in util.self_stores(f):
+        miss.append('generate_sbml_model keeps `%s` in the model between exports' % util.stmt_key(st_)[:60])
     ctx.ob('R12.3-forwarding', 'generate_sbml_model', not miss and ok, ctx.loc('types', f),
            'all parameters (with values), species (with initial values), reaction definitions (8 fields + stochastic flag) and rule definitions (with frequency) are written',
            str(miss) if miss else '')
@@ -410,6 +427,39 @@ def check_writer_values(ctx):
                'the value handed to %s is written into the document unchanged, exactly once, on every path' % fname, '; '.join(sorted(set(problems))[:3]))
 
 
+def check_fresh_containers(ctx):
+    """every reaction / rule / species read from a document gets its own dictionaries: no function of the SBML module fills a container
+    that outlives the call (a mutable default argument that the body stores into is created once, at import time)"""
+    smod = ctx.prog.mod('sbmlutil')
+    bad = []
+    n = 0
+    for g_ in [x for x in ast.walk(smod.tree) if isinstance(x, ast.FunctionDef)]:
+        n += 1
+        args = g_.args.args
+        defaults = g_.args.defaults
+        for a_, d_ in zip(args[len(args) - len(defaults):], defaults):
+            if isinstance(d_, (ast.Dict, ast.List, ast.Set)) or (isinstance(d_, ast.Call) and src(d_.func) in ('dict', 'list', 'set', 'OrderedDict')):
+                stored = False
+                for x in ast.walk(g_):
+                    if isinstance(x, (ast.Assign, ast.AugAssign)):
+                        for t in (x.targets if isinstance(x, ast.Assign) else [x.target]):
+                            b = t
+                            while isinstance(b, ast.Subscript):
+                                b = b.value
+                            if isinstance(t, ast.Subscript) and isinstance(b, ast.Name) and b.id == a_.arg:
+                                stored = True
+                    if isinstance(x, ast.Call) and isinstance(x.func, ast.Attribute) and isinstance(x.func.value, ast.Name) and x.func.value.id == a_.arg \
+                            and x.func.attr in ('append', 'update', 'setdefault', 'add', 'extend', 'insert', 'pop', 'clear'):
+                        stored = True
+                if stored:
+                    bad.append('%s(): the default of `%s` is one shared container and the body stores into it (%s)' % (g_.name, a_.arg, ctx.loc('sbmlutil', g_)))
+    if n < 15:
+        raise AnalysisError('anchor vanished: sbmlutil functions')
+    ctx.ob('R12.6-reader-values', 'fresh-containers', not bad, 'bioscrape/sbmlutil.py',
+           'no function of the SBML module stores into a mutable default argument (%d functions scanned): what is read for one element cannot leak into the next' % n,
+           '; '.join(bad[:2]))
+
+
 def check_language(ctx):
     """R12.5: formula strings (general rates, rule right-hand sides) go through a libsbml parser on the way out and through
     formulaToL3String + bioscrape's own parser on the way back; the composition must keep bioscrape's meaning of every function
@@ -463,7 +513,7 @@ def check(ctx):
     check_determinism(ctx)
     check_language(ctx)
     check_writer_values(ctx)
-    ctx.floor('R12.5-formula-language', 20)
+    ctx.floor("R12.5-formula-language", 22)
     # "the same species and initial values, the same parameter values": the reader takes every species' initial value and every
     # parameter's value attribute, whatever else the document says about them (C13 R13.5) - re-emitted here
     from ..core import SubCtx
@@ -475,6 +525,7 @@ def check(ctx):
     c13.check_parameter_values(ctx, 'R12.6-reader-values')
     c14.check_parameter_ids(ctx, 'R12.3-forwarding')
     c13.check_unannotated_general(ctx, 'R12.6-reader-values')
+    check_fresh_containers(ctx)
     ctx.floor('R12.6-reader-values', 2)
     ctx.floor('R12.1-propensity-keys', 6)
     ctx.floor('R12.1-delay-keys', 8)
